@@ -295,10 +295,13 @@ def kernel_replay(pid, entry, cases, model_results, limit):
     extracted driver's results.  Returns (n_checked, ok, detail)."""
     if not cases:
         return 0, True, ''
-    idx = list(range(len(cases)))
+    # cases whose literal would be huge (a 70 000-character line) are left to the extracted driver: coqc overflows its stack on them
+    idx = [i for i in range(len(cases)) if len(json.dumps(cases[i], default=str)) + len(json.dumps(model_results[i], default=str)) < 20000]
     rnd = random.Random(12345)
     rnd.shuffle(idx)
     idx = idx[:limit]
+    if not idx:
+        return 0, True, ''
     d = os.path.join(BUILD, 'replay')
     os.makedirs(d, exist_ok=True)
     name = 'Replay_%s_%s' % (pid, entry)
